@@ -1,6 +1,7 @@
 (* C08 — Mercury consensus values are byzantine-robust.  Observations are tagged
    ((value, valid flag), from a correct observer?); the functions see only `map fst`. *)
-From DS Require Import Base Sort MercuryAgg RankMedian MercuryAggProofs.
+From DS Require Import Base Sort Decimal MercuryAgg RankMedian MercuryAggProofs.
+From DS Require MercuryReport MercuryWire MercuryObserve MercObserveProofs.
 
 Theorem C08_consensus_timestamp_in_honest_range : forall (tts : list (Z * bool)) t,
   (faulty_count tts < honest_count tts)%nat -> consensus_timestamp (map fst tts) = Ok t ->
@@ -70,6 +71,82 @@ Print Assumptions C08_latest_block_honest_witness.
 Theorem C08_max_finalized_ts_order_independent : forall ks xs f,
   Permutation.Permutation ks (nodup_Z (valid_vals xs)) -> max_finalized_ts_order ks xs f = max_finalized_ts xs f.
 Proof. exact max_finalized_ts_order_independent. Qed.
+
+(* ---- "a value from a correct observer", grounded in the code a correct observer runs ----
+   MercuryObserve.merc_observe234 is the model of MercuryPlugin.Observation (v2-v4): what a correct node sends, given what
+   its data source returned and its clock; merc_encode234 / merc_decode234 are proto.Marshal / proto.Unmarshal of the
+   message. `received` = what Report's parser keeps of a round in which some senders are correct nodes and the others
+   send arbitrary bytes. *)
+Import MercuryReport MercuryWire MercuryObserve MercObserveProofs.
+
+(* every correct node reads a correct node's observation as exactly the sender's data-source values *)
+Theorem C08_correct_observation_is_counted : forall ver base now fail ds m,
+  ver = 2 \/ ver = 3 \/ ver = 4 -> 0 <= now -> ds_typed ds ->
+  merc_observe234 ver base now fail ds = Ok m ->
+  exists m', merc_decode234 ver (merc_encode234 ver m) = Some m' /\ parse234 ver m' = Some (expected_pao ver base now ds).
+Proof. exact correct_observation_is_counted. Qed.
+Print Assumptions C08_correct_observation_is_counted.
+
+Theorem C08_correct_observation1_is_counted : forall now prev_nil fail ds m, ds1_typed ds ->
+  merc_observe1 now prev_nil fail ds = Ok m ->
+  exists m', merc_decode1 (merc_encode1 m) = Some m' /\
+             parse1 m' = if blocks_okb ds then Some (expected_pao1 now prev_nil ds) else None.
+Proof. exact correct_observation1_is_counted. Qed.
+Print Assumptions C08_correct_observation1_is_counted.
+
+Theorem C08_consensus_benchmark_between_data_sources : forall ver base ss f v,
+  ver = 2 \/ ver = 3 \/ ver = 4 -> senders_ok ss ->
+  let txs := map (fun pt => (p_bm (fst pt), snd pt)) (received ver base ss) in
+  (faulty_count (tvalid txs) < honest_count (tvalid txs))%nat ->
+  consensus_price (map fst txs) f = Ok v ->
+  exists n1 d1 n2 d2 lo hi, In (Correct n1 d1) ss /\ In (Correct n2 d2) ss /\
+                            ds_bm d1 = Some lo /\ ds_bm d2 = Some hi /\ lo <= v <= hi.
+Proof. exact consensus_benchmark_between_data_sources. Qed.
+Print Assumptions C08_consensus_benchmark_between_data_sources.
+
+Theorem C08_consensus_link_fee_between_computed_fees : forall ver base ss f v,
+  ver = 2 \/ ver = 3 \/ ver = 4 -> senders_ok ss ->
+  let txs := map (fun pt => (p_link (fst pt), snd pt)) (received ver base ss) in
+  (faulty_count (tfee txs) < honest_count (tfee txs))%nat ->
+  consensus_fee (map fst txs) f = Ok v ->
+  0 <= v /\ exists n1 d1 n2 d2 lo hi, In (Correct n1 d1) ss /\ In (Correct n2 d2) ss /\
+                            fee_val base (ds_link d1) = (lo, true) /\ fee_val base (ds_link d2) = (hi, true) /\ lo <= v <= hi.
+Proof. exact consensus_link_fee_between_computed_fees. Qed.
+Print Assumptions C08_consensus_link_fee_between_computed_fees.
+
+Theorem C08_consensus_timestamp_between_clocks : forall ver base ss t,
+  ver = 2 \/ ver = 3 \/ ver = 4 -> senders_ok ss ->
+  let tts := map (fun pt => (p_ts (fst pt), snd pt)) (received ver base ss) in
+  (faulty_count tts < honest_count tts)%nat ->
+  consensus_timestamp (map fst tts) = Ok t ->
+  exists n1 d1 n2 d2, In (Correct n1 d1) ss /\ In (Correct n2 d2) ss /\ n1 <= t <= n2.
+Proof. exact consensus_timestamp_between_clocks. Qed.
+Print Assumptions C08_consensus_timestamp_between_clocks.
+
+(* the fee a correct node sends: 100 x the integer nearest to baseUSDFee x 10^34 / price, non-negative for a
+   non-negative base fee *)
+Theorem C08_calc_fee_nearest : forall price base fee, price <> 0 -> dzc base <> 0 ->
+  merc_calc_fee price base = Ok fee ->
+  exists q, fee = 100 * q /\ 2 * Z.abs (q * fee_den price base - fee_num base) <= Z.abs (fee_den price base).
+Proof. exact merc_calc_fee_nearest. Qed.
+Theorem C08_calc_fee_sign : forall price base fee, 0 < price -> 0 <= dzc base -> merc_calc_fee price base = Ok fee -> 0 <= fee.
+Proof. exact merc_calc_fee_sign. Qed.
+Print Assumptions C08_calc_fee_nearest.
+
+(* non-vacuity: f = 1; three correct v3 nodes whose data sources return 1000 / 1002 / 1001 (bid, ask around), one faulty
+   sender with a well-formed observation claiming 10^30: the consensus benchmark is 1002 *)
+Definition C08_nv_ds (bm : Z) : ds234 :=
+  {| ds_bm := Some bm; ds_bid := Some (bm - 1); ds_ask := Some (bm + 1); ds_mfts := Some 5;
+     ds_link := Some (7 * 10 ^ 18); ds_native := Some (-1); ds_status := None |}.
+Definition C08_nv_faulty : bytes :=
+  match merc_observe234 3 (mkdec 1 (-3)) 1700000000 false (C08_nv_ds (10 ^ 30)) with Ok m => merc_encode234 3 m | _ => [] end.
+Definition C08_nv_senders : list sender :=
+  [Correct 1700000000 (C08_nv_ds 1000); Faulty C08_nv_faulty; Correct 1700000001 (C08_nv_ds 1002); Correct 1700000002 (C08_nv_ds 1001)].
+Example C08_nv_round :
+  let txs := map (fun pt => (p_bm (fst pt), snd pt)) (received 3 (mkdec 1 (-3)) C08_nv_senders) in
+  (length txs = 4)%nat /\ (faulty_count (tvalid txs) < honest_count (tvalid txs))%nat /\
+  consensus_price (map fst txs) 1 = Ok 1002.
+Proof. vm_compute. split; [reflexivity|]. split; [lia|reflexivity]. Qed.
 
 (* non-vacuity *)
 Example C08_nv :
